@@ -48,5 +48,5 @@ OBLIGATIONS = [
     ob('C05.plume.uniformC', 'h_c05_plume_uniform_C', [(1,), (2,)], ['uniform composition: a listed composition gets its fraction combined by the operation', 'uniform composition: replace clears the compositions it does not list', OUT, 'end'], '1..2 listed compositions', tus=TUS_LINE),
 ]
 # a model only returns its documented value if the segment it was written on actually gets it: the inheritance obligation of C10 (real Parameters::get_vector<Segment>) is run here as well
-import C10 as _C10
-OBLIGATIONS = OBLIGATIONS + [dict(o, id='C05.inherit') for o in _C10.OBLIGATIONS if o['id'] == 'C10.inherit']
+import C10i as _C10i
+OBLIGATIONS = OBLIGATIONS + [_C10i.inherit('C05.inherit')]
